@@ -268,6 +268,40 @@ def fcl_distance_model(specs_pos, motion):
     return float(fcl.distance(objs[0], objs[1]))
 
 
+def fcl_inputs_verified_and_reproduced(x, y, sx, sy, d):
+    """Second, robust route of the same attribution.  FCL's early stop is chaotic in the last bits
+    of its inputs (a rotation matrix built from Euler products instead of a quaternion changes
+    which wrong value comes out), so an independently built call need not reproduce Scenic's
+    number.  Here the inputs Scenic hands to FCL are *verified* against the oracle -- scaled
+    geometry == unit mesh x dimensions, transform == (R, position) rebuilt from the properties --
+    and FCL is then called directly on exactly those inputs, in the same argument order.  If that
+    returns the reported value, Scenic passed correct geometry and returned FCL's answer
+    unchanged: the error is the third-party library's, not minimumDistanceTo's."""
+    import fcl
+
+    try:
+        objs = []
+        for o, (spec, S_R, S_p) in ((x, sx), (y, sy)):
+            occ = o.occupiedSpace
+            geom, trans = occ._fclData
+            ss = occ._scaledShape
+            _, unit, _ = get_shape(spec["shape"])
+            V = unit.V * np.asarray(spec["dims"], float)
+            sv = np.array(ss.mesh.vertices, dtype=float)
+            scale = max(1.0, float(np.abs(V).max()), float(np.abs(S_p).max()))
+            if ss._fclData[0] is not geom or sv.shape != V.shape or np.abs(sv - V).max() > 1e-9 * scale:
+                return False
+            if np.abs(np.asarray(trans.getRotation()) - S_R).max() > 1e-9:
+                return False
+            if np.abs(np.asarray(trans.getTranslation()) - S_p).max() > 1e-9 * scale:
+                return False
+            objs.append(fcl.CollisionObject(geom, trans))
+        raw = float(fcl.distance(objs[0], objs[1]))
+    except Exception:
+        return False
+    return abs(raw - d) <= 1e-9 * max(1.0, abs(d))
+
+
 def intersect_exit(probe, oA, oB, result, cdist, rsum):
     n = probe.n
     if oA._isPlanarBox and oB._isPlanarBox:
@@ -897,7 +931,19 @@ def judge_pair(case, out):
                         except Exception:
                             model = None
                         if model is None or abs(model - d) > 1e-7 * max(1.0, abs(d)):
-                            sym = "too-large-beyond-fcl"
+                            def rp(spec, pos):
+                                R = geo.pose_matrix(spec["ypr"], spec.get("parent"))
+                                q = np.asarray(pos, float)
+                                if motion:
+                                    G = geo.rot(*motion["ypr"])
+                                    R, q = G @ R, G @ q + np.asarray(motion["t"], float)
+                                return (spec, R, q)
+
+                            sA, sB = rp(A, posA), rp(B, posB)
+                            ok = fcl_inputs_verified_and_reproduced(
+                                x, y, *((sA, sB) if name == "AB" else (sB, sA)), d)
+                            if not ok:
+                                sym = "too-large-beyond-fcl"
                     fail(f"mindist:{cell}", sym, suffix, order=name, expected=gap, observed=d,
                              size=size, posB=posB, dimsB=B["dims"])
             elif verdict > 0:
